@@ -1311,7 +1311,7 @@ func (h *c07Hist) verify(level int, label string) {
 			if opt[e] {
 				return false
 			}
-			if term != nil && !term.match(e, !h.anonymize) {
+			if term != nil && !term.match(e, !h.anonymize, false) {
 				return false
 			}
 			if status != "" {
@@ -1323,7 +1323,7 @@ func (h *c07Hist) verify(level int, label string) {
 			return true
 		}
 		may := func(e *c07Entry) bool {
-			if term != nil && !term.match(e, true) {
+			if term != nil && !term.match(e, true, true) {
 				return false
 			}
 			if status != "" {
@@ -1335,13 +1335,18 @@ func (h *c07Hist) verify(level int, label string) {
 			return true
 		}
 		nmust := 0
+		caseZone := false
 		for _, e := range h.live {
 			a, b := must(e), may(e)
 			if a {
 				nmust++
 			}
 			if a != b && !opt[e] {
-				zone = true
+				if term != nil && term.match(e, !h.anonymize, true) && !term.match(e, !h.anonymize, false) {
+					caseZone = true
+				} else {
+					zone = true
+				}
 			}
 		}
 		sp := h.get(kind, q)
@@ -1351,6 +1356,28 @@ func (h *c07Hist) verify(level int, label string) {
 		h.rec.Events["searches"]++
 		if nmust > 0 {
 			h.rec.Events["searches_with_matches"]++
+		}
+		if caseZone {
+			h.rec.Unspec["search term that matches a ClientID, address or client name only if letter case is ignored"]++
+			// Not asserted, but recorded: the product means to ignore letter
+			// case there.
+			got := map[int64]bool{}
+			for _, tm := range sp.Times {
+				got[tm] = true
+			}
+			for _, e := range h.live {
+				if !opt[e] && may(e) && !must(e) && !got[e.Nano] && term.match(e, !h.anonymize, true) {
+					st := true
+					if status != "" {
+						st, _ = c07StatusMustMay(status, e)
+					}
+					if st {
+						h.rec.Unspec["... of these: entry not returned although it matches when letter case is ignored (term "+strconv.Quote(term.Value)+")"]++
+
+						break
+					}
+				}
+			}
 		}
 		if zone {
 			h.rec.Unspec["search whose exact result depends on an open point (status class of an unusual reason/flag pair, client search under anonymisation)"]++
